@@ -27,4 +27,46 @@ def handle (args : List String) : Option String :=
     | _, _ => some "bad-op"
   | _ => some "bad-op"
 
+def bytesLt : Bytes → Bytes → Bool
+  | [], [] => false
+  | [], _ :: _ => true
+  | _ :: _, [] => false
+  | a :: as, b :: bs => a < b || (a == b && bytesLt as bs)
+
+def insertSorted (x : Bytes) : List Bytes → List Bytes
+  | [] => [x]
+  | y :: ys => if x == y then y :: ys else if bytesLt x y then x :: y :: ys else y :: insertSorted x ys
+
+/-- a list of IDs as a sorted set -/
+def sortedSet (l : List Bytes) : List Bytes := l.foldl (fun acc x => insertSorted x acc) []
+
+/-- `ctx.addauth`: the selection `EventBuilder.AddAuthEvents` makes for a new event shaped like `e` (`selectNeeded`; in a
+    version with domainless room IDs the create event is named by the room ID instead of being listed), the verdict on the
+    full provider and on a provider holding exactly the selected events.  Specification (C09, last sentence): the selected
+    auth events are sufficient — the verdict on them is the verdict on the full state. -/
+def handleAddAuth (args : List String) : Option String :=
+  match args with
+  | ver :: sig :: ev :: rest =>
+    let v := strBytes ver
+    match parseEvArg v ev, parseEvArgs v rest with
+    | some e, some auth =>
+      let s := sig == "1"
+      let full := Provider.ofEvents auth
+      let roomCreateID : Bytes := 0x24 :: e.roomID.drop 1
+      -- the create event of another room is not named by this room's ID: it is neither listed nor handed over
+      let sel := (selectNeeded full e).filter (fun x => !(e.isV3Format && x.isCreate && x.eventID != roomCreateID))
+      let refs := sortedSet ((sel.filter (fun x => !(e.isV3Format && x.isCreate))).map (·.eventID))
+      let refsHex := hex (",".toUTF8.toList.intercalate refs)
+      let f := (allowedFresh e full s).coarse
+      let r := (allowedFresh e (Provider.ofEvents sel) s).coarse
+      if f.startsWith "skip" || r.startsWith "skip" then some "skip:unmodelled"
+      else
+        let m := f ++ "," ++ r ++ "," ++ refsHex
+        -- auth events from different rooms: outside the property's quantifier, and the generator's format-1 event IDs
+        -- repeat across rooms, so "the events the references stand for" is not well defined there
+        if !full.valid then some "skip:auth events from different rooms"
+        else some (m ++ "\t" ++ r ++ "," ++ r ++ "," ++ refsHex)
+    | _, _ => some "bad-op"
+  | _ => some "bad-op"
+
 end V.Driver.NeededOps
